@@ -227,6 +227,82 @@ def r4_backend_dispatch(ctx):
         r.anchor_missing("Database/FileSystem dispatch impls (found %d methods)" % n)
 
 
+def r5_loops_visit_every_item(ctx):
+    """A per-item loop of the upgrader (accounts, folders, blobs, rows) has no
+    success return inside its body: an early `return Ok` ends the migration of
+    everything after the current item while the upgrade still reports success."""
+    ws = ctx.ws
+    r = ctx.rule("C19-R5", "no success return from inside a per-item loop of the upgrader",
+                 floor=12, kind="K2 exit reachability from loop bodies")
+    n = 0
+    for root, fn in sorted(ws.fns.items()):
+        if fn.crate != "sos_database_upgrader":
+            continue
+        for b in fn.bodies:
+            live = cfg.live_blocks(b)
+            oks = {e.block for e in cfg.exits(b) if e.kind == "ok"}
+            idx = 0
+            for i, t in b.calls():
+                if i not in live or cname(t) != "next" or not (t.get("macro") or "").endswith("ForLoop"):
+                    continue
+                es = cfg.enum_switch(b, t.get("t")) if t.get("t") is not None else None
+                if not es or "Some" not in es.targets:
+                    continue
+                n += 1
+                idx += 1
+                k = "%s|loop#%d" % (root, idx)
+                inside = cfg.reach(b, [es.targets["Some"]], cut_blocks=[i]) & oks
+                if inside:
+                    p_ = cfg.find_path(b, [es.targets["Some"]], sorted(inside), cut_blocks=[i])
+                    r.violation(k, cfg.loc(b, sorted(inside)[0]),
+                                "the function can return Ok from inside the loop body: the remaining items (accounts / folders / blobs) are silently skipped",
+                                work=len(live), witness=cfg.path_lines(b, p_))
+                else:
+                    r.ok(k, cfg.loc(b, i), "the loop body leaves only by `continue`, the end of the body, or an error", work=len(live))
+    if n < 12:
+        r.anchor_missing("for loops in sos_database_upgrader (found %d, 14 on the pinned tree)" % n)
+
+
+PATHS_TY = re.compile(r"sos_core::paths::Paths::")
+
+
+def r6_account_paths(ctx):
+    """Inside a function that is handed the account's own `paths`, per-account
+    files are located through it and never through `options.paths` (the
+    global paths the upgrade was started with)."""
+    ws = ctx.ws
+    r = ctx.rule("C19-R6", "per-account files are located through the account's own Paths, not the global options.paths",
+                 floor=10, kind="K4 receiver origin")
+    n = 0
+    for root, fn in sorted(ws.fns.items()):
+        if fn.crate != "sos_database_upgrader":
+            continue
+        body = cfg.code_body(ws, fn)
+        if "paths" not in body.vars.values() or "options" not in body.vars.values():
+            continue
+        fg = FlowGraph(ws, fn)
+        counts = {}
+        for b in fn.bodies:
+            for i, t in idioms.real_calls(b, cfg.live_blocks(b)):
+                if not PATHS_TY.search(t.get("callee") or "") or not t["args"]:
+                    continue
+                nm = cname(t)
+                if nm in ("is_global", "is_server", "clone", "documents_dir", "new_client", "new_server", "with_account_id"):
+                    continue
+                counts[nm] = counts.get(nm, 0) + 1
+                k = "%s|%s#%d" % (root, nm, counts[nm])
+                sl = fg.back_from_operand(b, t["args"][0])
+                n += 1
+                if sl.reads_field("paths", "UpgradeOptions"):
+                    r.violation(k, cfg.loc(b, i),
+                                "`%s()` is taken from options.paths although the function was given the account's own paths: on a data-directory upgrade every account gets the global file instead of its own" % nm,
+                                work=len(sl.nodes))
+                else:
+                    r.ok(k, cfg.loc(b, i), "`%s()` on the account's paths" % nm, work=len(sl.nodes))
+    if n < 10:
+        r.anchor_missing("Paths accessors in functions with both `paths` and `options` (found %d)" % n)
+
+
 def run(ctx):
     ctx.explanation = (
         "Guard, order and coverage rules over the upgrader: (R1) every creating/destructive call in the upgrader module "
@@ -234,10 +310,12 @@ def run(ctx):
         "new database, blob copying and deletion of the source are dominated by a successful assert_sync_status, which "
         "compares whole SyncStatus values computed on both sides; (R3) import_account reads all five log kinds and calls "
         "a collector and an inserter for each log and table; (R4) every Database/FileSystem enum impl delegates each "
-        "method to the same method in both arms. Event-for-event equality is what assert_sync_status checks at run time "
+        "method to the same method in both arms; (R5) no per-item loop of the upgrader can return Ok from inside its body; (R6) in functions given the account's own Paths, per-account files are never located through options.paths. Event-for-event equality is what assert_sync_status checks at run time "
         "and is not decided here.")
     ctx.trust("SyncStatus equality is structural (derived PartialEq)")
     r1_dry_run_read_only(ctx)
     r2_delete_after_status_check(ctx)
     r3_import_covers_everything(ctx)
     r4_backend_dispatch(ctx)
+    r5_loops_visit_every_item(ctx)
+    r6_account_paths(ctx)
